@@ -126,6 +126,11 @@ class C05(SimSpec):
         if tr.tiering_entered:
             if v['part'] == 'raised':
                 return f"tiering_entered+{tr.exc_sig}"
+            if v['part'] == 'hang':
+                b = tr.sim.buffer
+                stranded = bool(b.cold[0].observations['stored'] or b.cold[0].observations['transfer']
+                                or b.hot[0].observations['transfer'])
+                return "tiering_entered+hang_stranded_in_cold" if stranded else "tiering_entered+hang_other"
             return f"tiering_entered+{v['part']}"
         if v['part'] == 'raised':
             return f"raised+{tr.exc_sig}"
